@@ -361,7 +361,7 @@ def run(chk):
         chk.violation("C01.rej.tecl", RP.methods["parse_headers"], "HttpRequestParser.parse_headers", "override", "request parser overrides parse_headers (TE+CL check bypassed)")
     # head lines
     rej("C01.rej.afterclose", fd, [("self._should_close", True, "a previous message asked to close")], ALL, "data after Connection: close", extra=[("self._should_close", True)])
-    rej("C01.rej.linelong", fd, [("len(line) > $L", True, "complete line longer than its limit")], ALL, "start/header line too long")
+    rej("C01.rej.linelong", fd, [([("len(line) > $L", True), ("line_len > $L", True)], True, "complete line longer than its limit")], ALL, "start/header line too long")
     rej("C01.rej.toomany", fd, [("len(self._lines) > self.max_headers", True, "too many header lines")], ALL, "too many headers", extra=[("len(line) > $L", False)])
     rej("C01.rej.barelf", fd, [("b'\\n' in self._tail", True, "bare LF in a line without CRLF")], ALL, "bare LF in start line / header")
     # ... and in a *complete* start line too, otherwise `GET /a\nb HTTP/1.1` is refused only if a read happens to end between the LF and the
@@ -421,7 +421,7 @@ def run(chk):
         chk.violation("C01.rej.chunklf", pp, "if b'\\n' in chunk: raise TransferEncodingError", f"found {n_lf} of 2 (chunk-size line, trailer line)", "bare LF in a chunk-size or trailer line is buffered instead of refused")
     rej("C01.rej.chunkcrlf", pp, [([("chunk[:len($S)] == $S", False), ("chunk[$A:$B] == $S", False)], True, "no CRLF after chunk data")], ALL, "missing CRLF after chunk data",
         extra=[("chunk == $S[:len(chunk)]", False), ("len(chunk) < len($S)", False), ("$E == $S[:len($E)]", False), ("len($E) < len($S)", False)])
-    rej("C01.rej.trailerlong", pp, [("len(line) > self._max_field_size", True, "trailer too long")], ALL, "trailer line too long")
+    rej("C01.rej.trailerlong", pp, [([("len(line) > self._max_field_size", True), ("line_len > self._max_field_size", True)], True, "trailer too long")], ALL, "trailer line too long")
     rej("C01.rej.trailers", pp, [("len(self._trailer_lines) > self._max_trailers", True, "too many trailers")], ALL, "too many trailers", extra=[("len(line) > self._max_field_size", False)])
     rej("C01.rej.chunktail", pp, [("len(self._chunk_tail) - self._chunk_tail.endswith(b'\\r') > $L", True, "buffered partial chunk-size/trailer line too long")], ALL,
         "buffered partial chunk line too long", extra=[])
